@@ -2,7 +2,7 @@
    and BaseFacts.v.  Strings and byte arrays are modelled as the list of their bytes (embedded NULs
    included; the terminating NUL of a string is implicit), so create/copy are the identity on the
    content: that part of the property is tied by the correspondence run (strrt/bart observations). *)
-From Sbdf Require Import Imp ImpCall Gen.Prog ImpBase ImpFactsCmp ImpFactsHeap ImpFactsCells ImpFactsEq.
+From Sbdf Require Import Imp ImpCall Gen.Prog ImpBase ImpFactsCmp ImpFactsHeap ImpFactsHeap2 ImpFactsCells ImpFactsEq.
 From Coq Require Import List.
 From Sbdf Require Import Obj BaseFacts VaFacts EqFacts.
 
